@@ -17,30 +17,32 @@ import (
 // Case is one Layout invocation. All numbers are small integers; real sizes
 // and spacings are value * 2^Sc.
 type Case struct {
-	Case  int      `json:"case"`
-	G     int      `json:"g"`   // relational group (0 = none)
-	Rel   string   `json:"rel"` // "", "ref", "same", "rename", "scale", "part", "union", "mon"
-	Part  []int    `json:"part,omitempty"`
-	N     int      `json:"n"`
-	Edges [][2]int `json:"edges"`
-	Names []string `json:"names,omitempty"`
-	P1    string   `json:"p1"`
-	P2    string   `json:"p2"`
-	P3    string   `json:"p3"`
-	P4    string   `json:"p4"`
-	P5    string   `json:"p5"`
-	Ns    int      `json:"ns"`
-	Ls    int      `json:"ls"`
-	Fixed []int    `json:"fixed"` // [] or [w,h]
-	Smap  [][]int  `json:"smap"`  // [] or per node [present,w,h] (optionally ,x,y)
-	Virt  int      `json:"virt"`
-	Thor  int      `json:"thor"` // <0: library default
-	Seed  int      `json:"seed"`
-	Mon   int      `json:"mon"`
-	Sc    int      `json:"sc"`
-	Ex    int      `json:"ex"`    // log exact float decompositions
-	After int      `json:"after"` // re-read the caller's data after the call
-	Bad   int      `json:"bad"`   // 1: malformed edge (3 strings) appended, 2: empty edge list (C18 panics)
+	Case     int      `json:"case"`
+	G        int      `json:"g"`   // relational group (0 = none)
+	Rel      string   `json:"rel"` // "", "ref", "same", "rename", "scale", "part", "union", "mon"
+	Part     []int    `json:"part,omitempty"`
+	N        int      `json:"n"`
+	Edges    [][2]int `json:"edges"`
+	Names    []string `json:"names,omitempty"`
+	P1       string   `json:"p1"`
+	P2       string   `json:"p2"`
+	P3       string   `json:"p3"`
+	P4       string   `json:"p4"`
+	P5       string   `json:"p5"`
+	Ns       int      `json:"ns"`
+	Ls       int      `json:"ls"`
+	Fixed    []int    `json:"fixed"` // [] or [w,h]
+	Smap     [][]int  `json:"smap"`  // [] or per node [present,w,h] (optionally ,x,y)
+	Virt     int      `json:"virt"`
+	Thor     int      `json:"thor"` // <0: library default
+	Seed     int      `json:"seed"`
+	Mon      int      `json:"mon"`
+	Sc       int      `json:"sc"`
+	Ex       int      `json:"ex"`    // log exact float decompositions
+	After    int      `json:"after"` // re-read the caller's data after the call
+	Cert     int      `json:"cert"`  // attach an optimality certificate for the layering (C10)
+	Bad      int      `json:"bad"`
+	BudgetMs int      `json:"budgetms"` // wall-clock budget of this case (0: the driver's default)   // 1: malformed edge (3 strings) appended, 2: empty edge list (C18 panics)
 }
 
 func (c *Case) name(i int) string {
@@ -196,21 +198,32 @@ func invoke(src graph.Source, opts []autog.Option) (res outcome) {
 	return
 }
 
-// panicSite returns file:line of the first frame below the runtime panic machinery.
+// panicSite returns the function (and, after a blank, file:line) of the first frame below the runtime panic machinery.
 func panicSite() string {
 	pcs := make([]uintptr, 64)
 	n := runtime.Callers(3, pcs)
 	frames := runtime.CallersFrames(pcs[:n])
 	for {
 		f, more := frames.Next()
-		if f.Function != "" && !hasPrefix(f.Function, "runtime.") && !hasPrefix(f.Function, "main.invoke") {
-			return shortFile(f.File) + ":" + strconv.Itoa(f.Line)
+		if f.Function != "" && !hasPrefix(f.Function, "runtime.") && !hasPrefix(f.Function, "main.") {
+			return shortFunc(f.Function) + " " + shortFile(f.File) + ":" + strconv.Itoa(f.Line)
 		}
 		if !more {
 			break
 		}
 	}
 	return "?"
+}
+
+func shortFunc(f string) string {
+	const mod = "github.com/nulab/autog"
+	if hasPrefix(f, mod+"/") {
+		return f[len(mod)+1:]
+	}
+	if hasPrefix(f, mod+".") {
+		return "autog" + f[len(mod):]
+	}
+	return f
 }
 
 func hasPrefix(s, p string) bool { return len(s) >= len(p) && s[:len(p)] == p }
@@ -233,6 +246,7 @@ func cmdRun(args []string) {
 	fs.Parse(args)
 	sc, w, done := cm.open()
 	defer done()
+	installHooks()
 
 	idx := 0
 	for sc.Scan() {
@@ -267,6 +281,12 @@ func runCase(c *Case, w writer) {
 	w.Write(enc.b)
 	w.Flush() // the culprit of a process abort is the last Call without completion
 
+	takeNSReports()
+	if c.BudgetMs > 0 {
+		budgetNs.Store(int64(c.BudgetMs) * int64(time.Millisecond) * budgetScale)
+	} else {
+		budgetNs.Store(defaultBudgetNs)
+	}
 	curCase.Store(int64(c.Case))
 	caseStart.Store(time.Now().UnixNano())
 	var source graph.Source = src
@@ -280,6 +300,7 @@ func runCase(c *Case, w writer) {
 	if res.panic != nil {
 		enc.panicRec(c, fmt.Sprint(res.panic), res.where)
 	} else {
+		enc.ns = takeNSReports()
 		enc.ret(c, &res, rec, src, sizes)
 	}
 	if enc.rangeErr != "" {
